@@ -184,4 +184,45 @@ example : 21 ∈ (run init exHistory).live := by decide
 example : (step (step (run init exHistory) (.free 21)).1 (.alloc [])).2 = .addr 21 :=
   lifo_reuse _ 21 [] (by decide)
 
+/-! ### Tie to the source: the statement lists re-extracted from malloc_closure.h -/
+
+open CffiVerif.Generated.ClosureSteps in
+/-- `more_core`'s loop, as written in the source, is `pushAll`. -/
+theorem more_core_is_source (batch fl : List Addr) : execLoop moreCoreLoop batch fl = pushAll batch fl := by
+  induction batch generalizing fl with
+  | nil => rfl
+  | cons b rest ih =>
+    simp only [execLoop, List.foldl_cons, pushAll] at ih ⊢
+    exact ih (b :: fl)
+
+open CffiVerif.Generated.ClosureSteps in
+/-- **`alloc` = pop the head, `free` = push at the head, exactly as the statements of the source do it**: executing
+the extracted statement lists of `cffi_closure_free` / `cffi_closure_alloc` (with `more_core`'s loop) on the free list
+gives what the model's `step` does. -/
+theorem alloc_free_are_source (s : State) (p : Addr) (batch : List Addr) :
+    execFree closureFree s.free p = p :: s.free ∧
+    (p ∈ s.live → (step s (.free p)).1.free = execFree closureFree s.free p) ∧
+    ((s.free ≠ [] ∨ freshBatch s batch = true) →
+      (execAlloc closureAlloc moreCoreLoop batch s.free).2 = (step s (.alloc batch)).1.free ∧
+      (step s (.alloc batch)).2 = (match (execAlloc closureAlloc moreCoreLoop batch s.free).1 with
+        | some a => Out.addr a | none => Out.null)) := by
+  refine ⟨rfl, ?_, ?_⟩
+  · intro hp; simp [step, hp]; rfl
+  · intro h
+    cases hf : s.free with
+    | cons a rest =>
+      simp [execAlloc, closureAlloc, execStmt, step, hf, pop]
+    | nil =>
+      have hb : freshBatch s batch = true := by
+        rcases h with h | h
+        · exact absurd hf h
+        · exact h
+      have hl := more_core_is_source batch []
+      simp only [step, hf, hb, if_true, pop]
+      simp only [execAlloc, closureAlloc, List.foldl_cons, List.foldl_nil, execStmt]
+      simp only [Option.isSome_none, Bool.false_eq_true, if_false, if_true, List.isEmpty_nil, hl]
+      cases hq : pushAll batch [] with
+      | nil => simp
+      | cons a rest => simp
+
 end CffiVerif.C29
